@@ -237,10 +237,15 @@ C05_AttemptIsItsCall(s, e) ==
 C05_Overrun(s, e) == (e.ev = "PEnd" /\ e.out \in {"overrun", "lateok"}) => e.ctxdone
 
 (* ---------------- C06: bypass and pre-check gating ---------------- *)
+\* (a scope whose bypass checks had durably passed before a crash stays bypassed in the process that resumes the plan)
+BypassedAtCrash(s, sc) == s.crashed /\ HasGroup(s, sc, "bypass") /\ s.cdur[Grp(sc, "bypass")].st = CO
 C06_BypassSkips(s, e) ==
     /\ (IsP(e) /\ Running(s)) =>
           /\ ~BypassedScope(s, 0)
           /\ D(s, e.obj).b >= 1 => ~BypassedScope(s, D(s, e.obj).b)
+    /\ (IsP(e) /\ s.crashed) =>
+          /\ ~BypassedAtCrash(s, 0)
+          /\ D(s, e.obj).b >= 1 => ~BypassedAtCrash(s, D(s, e.obj).b)
     /\ (e.ev = "WaitRet" /\ Live(s)) =>
           \A sc \in 0..NB(s) : (BypassedScope(s, sc) /\ (sc = 0 \/ ~BypassedScope(s, 0))) => SnapOf(e.snap)[ScopeName(sc)].st = CO
 C06_BypassFailRuns(s, e) == (e.ev = "WaitRet" /\ Live(s)) =>
